@@ -555,6 +555,12 @@ M('twin-force-consistency-raises-the-guard-instead', 'twin', ['C17', 'C06'], [],
   [(PY, "        if self._needs_reshuffle:\n            self._reshuffle_extents()\n\n    def set_relocated_name(self, name, rr_name):", "        self._layout_changed = True\n        self._reshuffle_extents()\n\n    def set_relocated_name(self, name, rr_name):")])
 
 
+M('mangler-level-one-extension-limit-at-every-level', 'fault', ['C18'], ['SA-STR.ext'],
+  [(UT, "        maxextlen = 3 if iso_level == 1 else 30\n", "        maxextlen = 3\n")], 'folded into the base name')
+M('twin-mangler-extension-limit-as-statement', 'twin', ['C18', 'C20'], [],
+  [(UT, "        maxextlen = 3 if iso_level == 1 else 30\n", "        maxextlen = 30\n        if iso_level == 1:\n            maxextlen = 3\n")])
+
+
 def applicable(m, sources):
     for rel, old, new in m['edits']:
         src = sources.get(rel)
